@@ -51,6 +51,7 @@ from ...avps.ietf.rfc6733 import RedirectHostUsageAVP
 from ...avps.ietf.rfc6733 import RedirectMaxCacheTimeAVP
 from ...avps.ietf.rfc6733 import RouteRecordAVP
 from ...avps.ietf.rfc6733 import TerminationCauseAVP
+from ...avps.ietf.rfc6733 import UserNameAVP
 
 from ...avps.ietf.rfc7155 import FramedIpAddressAVP
 from ...avps.ietf.rfc7155 import CalledStationIdAVP
